@@ -18,6 +18,12 @@ Case line grammar (tokens separated by one blank; strings are hex of UTF-8, '-' 
   P <pv> <n> (<name> <req01> <ty>)*                        describe_params()
   I <pv> <ty>                                              describe_input_shape() (ty = i-term)
   X <pv> <hexbytes>                                        parse() on raw bytes
+  S <nset> (<name> <kind> <setof01> <affects01> <system01>)* <ncalls> <call>*
+                                                           a SEQUENCE of calls on ONE StateSerializerFactory
+     call := M <pv> <ng> (<gname> <req01> <multi01> <ty>)* <ne> (<pname> <kind> <multi01>)*   factory.make()
+           | K                                              make_compilation_config_serializer()
+           | P <pv> <n> (<name> <req01> <ty>)*              describe_params() in between
+     kind := str | int64 | bool
   ty  := s <sc> | t <named01> <pers01> <name> <n> (<elname> <ty>)* | a <pers01> <name> <ty>
        | r <pers01> <name> <ty> | m <pers01> <name> <ty> | o <sh>
        | i <basename> <n> (<elname> <card> <ty>)*          (input shape; card in o A m M)
@@ -311,8 +317,8 @@ def qname(name: str):
 class Builder:
     """Realises a term as real schema objects in a fresh FlatSchema derived from BASE."""
 
-    def __init__(self):
-        self.schema = BASE
+    def __init__(self, schema=None):
+        self.schema = BASE if schema is None else schema
         self.view_shapes = {}
         self.md = {}
         self.n = 0
@@ -1016,6 +1022,277 @@ def do_input(k):
     return case + '\t' + res + '\t' + pr
 
 
+
+# ------------------------------------------------------------------ call sequences on one factory
+
+from edb.server import config as s_config  # noqa: E402
+from edb.schema import globals as s_globals  # noqa: E402
+
+_STD_SCALARS = [
+    ('00000000000000000000000000000a02', 'std::anyreal', True, ['00000000000000000000000000000a01']),
+    ('00000000000000000000000000000a03', 'std::anyint', True,
+     ['00000000000000000000000000000a02', '00000000000000000000000000000a01']),
+    ('00000000000000000000000000000101', 'std::str', False, ['00000000000000000000000000000a01']),
+    ('00000000000000000000000000000105', 'std::int64', False,
+     ['00000000000000000000000000000a03', '00000000000000000000000000000a02', '00000000000000000000000000000a01']),
+    ('00000000000000000000000000000107', 'std::float64', False,
+     ['00000000000000000000000000000a02', '00000000000000000000000000000a01']),
+    ('00000000000000000000000000000109', 'std::bool', False, ['00000000000000000000000000000a01']),
+    ('00000000000000000000000000000102', 'std::bytes', False, ['00000000000000000000000000000a01']),
+    ('0000000000000000000000000000010f', 'std::json', False, ['00000000000000000000000000000a01']),
+]
+KIND = {'str': (str, 'std::str'), 'int64': (int, 'std::int64'), 'bool': (bool, 'std::bool')}
+
+
+def factory_std_schema():
+    schema = BASE
+    for i, name, ab, anc in _STD_SCALARS:
+        ancs = [schema.get_by_id(UUID(a)) for a in anc]
+        mod, _, nm = name.rpartition('::')
+        schema, _ = s_scalars.ScalarType.create_in_schema(
+            schema, id=UUID(i), name=Q(mod, nm), abstract=ab, bases=ancs[:1], ancestors=ancs)
+    schema, cobj = s_objtypes.ObjectType.create_in_schema(
+        schema, id=UUID('00000000000000000000000000000c01'), name=Q('cfg', 'ConfigObject'), abstract=True)
+    schema, _ = s_objtypes.ObjectType.create_in_schema(
+        schema, id=UUID('00000000000000000000000000000c02'), name=Q('cfg', 'ExtensionConfig'), abstract=True)
+    return schema
+
+
+FSTD = None
+
+
+class Capture:
+    """records the arguments of every top-level sertypes.describe_input_shape call (the harness
+    process wraps the module attribute; /repo is not touched)"""
+
+    def __init__(self):
+        self.calls = []
+        self.depth = 0
+        self.orig = sertypes.describe_input_shape
+
+    def __enter__(self):
+        cap = self
+
+        def wrapper(t, input_shapes, *, prepare_state=False, ctx):
+            if cap.depth == 0:
+                cap.calls.append((t, input_shapes, prepare_state, ctx.protocol_version))
+            cap.depth += 1
+            try:
+                return cap.orig(t, input_shapes, prepare_state=prepare_state, ctx=ctx)
+            finally:
+                cap.depth -= 1
+        sertypes.describe_input_shape = wrapper
+        return self
+
+    def __exit__(self, *a):
+        sertypes.describe_input_shape = self.orig
+
+
+def make_factory(settings):
+    spec = s_config.FlatSpec(*[
+        s_config.Setting(nm, type=KIND[kd][0], default=(frozenset() if so_ else None), required=False,
+                         schema_type_name=qname(KIND[kd][1]), set_of=so_, affects_compilation=af, system=sy)
+        for nm, kd, so_, af, sy in settings])
+    return sertypes.StateSerializerFactory(FSTD, spec)
+
+
+def build_user(std, globs, exts):
+    """user schema with the given globals and one extension config type"""
+    user = s_schema.EMPTY_SCHEMA
+    ch = s_schema.ChainedSchema(std, user, s_schema.EMPTY_SCHEMA)
+    b = Builder(ch)
+    b.modules = {'std', 'default', '__derived__', '__', 'cfg', 'std::cal', 'ext'}
+    for m in ('default', 'ext', 'ext::e'):
+        b.schema, _ = s_mod.Module.create_in_schema(b.schema, name=sn.UnqualName(m))
+    C = qltypes.SchemaCardinality
+    for nm, req, multi, term in globs:
+        tgt = b.ty(term)
+        b.schema, _ = s_globals.Global.create_in_schema(
+            b.schema, name=Q('default', nm), target=tgt, required=req,
+            cardinality=C.Many if multi else C.One)
+    if exts:
+        ext = std.get('cfg::ExtensionConfig')
+        b.schema, ec = s_objtypes.ObjectType.create_in_schema(
+            b.schema, name=Q('ext::e', 'Config'), bases=[ext], ancestors=[ext])
+        ps = []
+        for nm, kd, multi in exts:
+            pn = Q('ext::e', sn.get_specialized_name(Q('__', nm), 'ext::e::Config'))
+            b.schema, p = s_props.Property.create_in_schema(
+                b.schema, name=pn, source=ec, target=b.schema.get(KIND[kd][1]),
+                cardinality=C.Many if multi else C.One, required=False)
+            ps.append(p)
+        b.schema = ec.set_field_value(b.schema, 'pointers', so.ObjectIndexByUnqualifiedName.create(b.schema, ps))
+    return b.schema.get_top_schema(), b.schema.get_global_schema(), b.schema
+
+
+def exp_input(term, v2):
+    """expected canonical description of an input-shape term (same syntax as canon())"""
+    ex = Expect(v2)
+
+    def go(t, as_input):
+        if t[0] == 'i' and as_input:
+            _, base, els = t
+            subs = []
+            for n, c, e in els:
+                if c in 'mM':
+                    subs.append(ex.wrap_set(go(e, False)))
+                else:
+                    subs.append(go(e, True))
+            parts = [base, ':'.join(dashed(x[0]) for x in subs)]
+            if els:
+                parts.append(':'.join(n for n, _, _ in els))
+                parts.append(':'.join(chr(CARDV[c]) for _, c, _ in els))
+            i = h5('\x00'.join(parts) + 'False;None;None')
+            fl = ','.join(f'{cn(n)}:{x[1]}' for (n, _, _), x in zip(els, subs))
+            d = {}
+            order = []
+            for idx, (n, c, _) in enumerate(els):
+                if n not in d:
+                    order.append(n)
+                d[n] = f'{cn(n)}:{idx}:0:{CARDV[c]}'
+            return i, f'Inp({i},[{fl}],[{",".join(d[n] for n in order)}])'
+        if t[0] == 'i':
+            raise KeyError('input shape reached through plain _describe_type')
+        return ex.ty(t)
+    return go(term, True)
+
+
+def do_sequence(k):
+    global FSTD
+    if FSTD is None:
+        FSTD = factory_std_schema()
+    settings = []
+    for _ in range(k.num()):
+        nm = k.s(); kd = k.next(); so_ = k.flag(); af = k.flag(); sy = k.flag()
+        settings.append((nm, kd, so_, af, sy))
+    calls = []
+    for _ in range(k.num()):
+        kind = k.next()
+        if kind == 'M':
+            pv = parse_pv(k.next())
+            globs = []
+            for _ in range(k.num()):
+                nm = k.s(); req = k.flag(); multi = k.flag(); globs.append((nm, req, multi, p_ty(k)))
+            exts = []
+            for _ in range(k.num()):
+                nm = k.s(); kd = k.next(); multi = k.flag(); exts.append((nm, kd, multi))
+            calls.append(('M', pv, globs, exts))
+        elif kind == 'K':
+            calls.append(('K',))
+        elif kind == 'P':
+            pv = parse_pv(k.next())
+            ps = []
+            for _ in range(k.num()):
+                nm = k.s(); req = k.flag(); ps.append((nm, req, p_ty(k)))
+            calls.append(('P', pv, ps))
+        else:
+            raise ValueError('bad call kind ' + kind)
+    bad = []
+    obs_calls = []
+    results = []
+    parses = []
+    try:
+        factory = make_factory(settings)
+    except Exception as e:      # noqa
+        return 'S -\tskip ' + (type(e).__name__ + ':' + str(e)).replace(' ', '_')[:80] + '\t-'
+    seen = {}            # call inputs -> first result (equal inputs => identical bytes and id)
+    prepared = {}        # pv -> (len(buffer), dict(uuid_to_pos)) right after the first make at that pv
+    base_terms = {}
+    for call in calls:
+        try:
+            if call[0] == 'M':
+                _, pv, globs, exts = call
+                user, glob, full = build_user(FSTD, globs, exts)
+                with Capture() as cap:
+                    ser = factory.make(user, glob, pv)
+                tid, data = ser.describe()
+                tops = [c for c in cap.calls if not c[2]]
+                preps = [c for c in cap.calls if c[2]]
+                if preps:
+                    t, shapes, _, _ = preps[0]
+                    base_terms[pv] = Observer(factory._schema, {}, {}, dict(shapes)).ty(t)
+                t, shapes, _, _ = tops[-1]
+                call_term = Observer(s_schema.ChainedSchema(factory._schema, user, glob), {}, {},
+                                     dict(shapes)).ty(t)
+                obs_calls.append(f'M {pv[0]}.{pv[1]} {e_ty(base_terms[pv])} {e_ty(call_term)}')
+                results.append(f'ok {data.hex() or "-"} {tid.hex}')
+                parses.append(run_parse(data, pv))
+                # -- monitors
+                cctx = factory._contexts[pv]
+                snap = (len(cctx.buffer), dict(cctx.uuid_to_pos), len(cctx.anno_buffer))
+                if pv in prepared and prepared[pv] != snap:
+                    bad.append('cached-context-modified-by-make')
+                prepared.setdefault(pv, snap)
+                key = repr(call)
+                if key in seen and seen[key] != (data, tid):
+                    bad.append('equal-inputs-different-descriptor-across-calls')
+                seen.setdefault(key, (data, tid))
+                fresh = make_factory(settings).make(user, glob, pv)
+                if fresh.describe() != (tid, data):
+                    bad.append('reused-context-result-differs-from-fresh-factory')
+                try:
+                    exp_id, exp_desc = exp_input(call_term, pv >= (2, 0))
+                    if exp_id != tid.hex:
+                        bad.append('state-id-differs-from-documented-construction')
+                    if parses[-1] != 'ok ' + exp_desc:
+                        bad.append('state-descriptor-does-not-decode-to-the-state-shape')
+                except KeyError:
+                    pass
+                gnames = sorted('default::' + g[0] for g in globs)
+                d = sertypes.parse(data, pv)
+                cnames = sorted(st[0] for st in settings if not st[4]) + sorted('ext::e::Config::' + e[0] for e in exts)
+                if list(d.fields) != ['module', 'aliases', 'config', 'globals'] or \
+                        list(d.fields['globals'][1].fields) != gnames or \
+                        list(d.fields['config'][1].fields) != cnames:
+                    bad.append('state-fields-wrong')
+                if pv >= (2, 0) and split_v2(data) is None:
+                    bad.append('v2-length-prefixes-inconsistent')
+            elif call[0] == 'K':
+                with Capture() as cap:
+                    ser = factory.make_compilation_config_serializer()
+                tid, data = ser.describe()
+                t, shapes, _, pvk = cap.calls[-1]
+                term = Observer(factory._schema, {}, {}, dict(shapes)).ty(t)
+                obs_calls.append(f'K {pvk[0]}.{pvk[1]} {e_ty(term)}')
+                results.append(f'ok {data.hex() or "-"} {tid.hex}')
+                parses.append(run_parse(data, pvk))
+                key = 'K'
+                if key in seen and seen[key] != (data, tid):
+                    bad.append('equal-inputs-different-descriptor-across-calls')
+                seen.setdefault(key, (data, tid))
+                try:
+                    exp_id, exp_desc = exp_input(term, pvk >= (2, 0))
+                    if exp_id != tid.hex or parses[-1] != 'ok ' + exp_desc:
+                        bad.append('config-descriptor-does-not-decode-to-the-config-shape')
+                except KeyError:
+                    pass
+            else:
+                _, pv, ps = call
+                b = Builder(s_schema.ChainedSchema(FSTD, s_schema.EMPTY_SCHEMA, s_schema.EMPTY_SCHEMA))
+                params = [(nm, b.ty(t), req) for nm, req, t in ps]
+                data, tid = sertypes.describe_params(schema=b.schema, params=params, protocol_version=pv)
+                ob = Observer(b.schema, {}, {})
+                obs_calls.append(f'P {pv[0]}.{pv[1]} {len(params)}' + ''.join(
+                    f' {hx(nm)} {"1" if req else "0"} {e_ty(ob.ty(t))}' for nm, t, req in params))
+                results.append(f'ok {data.hex() or "-"} {tid.hex}')
+                parses.append(run_parse(data, pv) if params else '-')
+                key = repr(call)
+                if key in seen and seen[key] != (data, tid):
+                    bad.append('equal-inputs-different-descriptor-across-calls')
+                seen.setdefault(key, (data, tid))
+        except RecursionError:
+            raise
+        except BaseException as e:      # noqa
+            import traceback
+            obs_calls.append('?')
+            results.append('err ' + errname(e))
+            parses.append('-')
+            bad.append('call-raised:' + errname(e) + ':' + str(e).replace(' ', '_').replace('\t', '_')[:60])
+            break
+    case = f'S {len(obs_calls)} ' + ' '.join(obs_calls)
+    return case + '\t' + ' ; '.join(results) + '\t' + ' ; '.join(parses) + ''.join('\t!' + x for x in sorted(set(bad)))
+
+
 def do_raw(k):
     pv = parse_pv(k.next())
     h = k.next()
@@ -1034,16 +1311,27 @@ def run_line(line):
         return do_input(k)
     if kind == 'X':
         return do_raw(k)
+    if kind == 'S':
+        return do_sequence(k)
     raise ValueError('bad case kind ' + kind)
 
 
 def main():
     out = []
+    first = {}          # kind -> (index, line): re-run after all other calls of this process
     for line in sys.stdin:
         line = line.rstrip('\n')
         if not line:
             continue
+        if line[0] in 'DPI' and line[0] not in first:
+            first[line[0]] = (len(out), line)
         out.append(run_line(line))
+    # multi-call monitor for the fresh-context entry points: the same call repeated after every
+    # other call made by this process must give the same answer
+    for kind, (idx, line) in first.items():
+        again = run_line(line)
+        if again.split('\t')[:3] != out[idx].split('\t')[:3]:
+            out[idx] += '\t!result-changed-after-other-calls-in-the-same-process'
     sys.stdout.write('\n'.join(out) + '\n')
 
 
